@@ -40,7 +40,14 @@ Pool == SetToSeq(
      \cup {Rel(<<StepP(a1, T_any, <<p>>), Step(a2, T_node)>>) : a1 \in ReverseAxes, a2 \in AxisNames, p \in {TrueP, Bin("le", Call(<<"p","o","s","i","t","i","o","n">>, <<>>), IntE(2))}}
      \* three steps: reverse, to the attributes / namespace nodes, and back up
      \cup {Rel(<<Step(a1, T_any), Step(a2, T_any), Step(a3, T_node)>>) : a1 \in ReverseAxes, a2 \in {"attribute", "namespace", "child"}, a3 \in {"parent", "ancestor", "following", "preceding"}}
-     \cup {Abs(<<DoS, Step(a1, T_any), Step(a2, T_any)>>) : a1 \in ReverseAxes \cup {"parent"}, a2 \in {"attribute", "namespace", "child", "parent"}})
+     \cup {Abs(<<DoS, Step(a1, T_any), Step(a2, T_any)>>) : a1 \in ReverseAxes \cup {"parent"}, a2 \in {"attribute", "namespace", "child", "parent"}}
+     \* a NAME test on the namespace axis (the library matches by the URI the query binds to the name; in this document the
+     \* prefix p is bound to the URI the query binds p to, so prefix rule and URI rule select the same nodes): each node once
+     \cup {Rel(<<Step("namespace", T_name("", <<"p">>))>>), Rel(<<Step("ancestor-or-self", T_any), Step("namespace", T_name("", <<"p">>))>>),
+           Abs(<<DoS, Step("namespace", T_name("", <<"p">>))>>), Call(<<"c","o","u","n","t">>, <<Abs(<<DoS, Step("namespace", T_name("", <<"p">>))>>)>>),
+           \* and counts of two-step results (a duplicate shows in the number)
+           Call(<<"c","o","u","n","t">>, <<Abs(<<DoS, Step("child", T_any), Step("parent", T_node)>>)>>),
+           Call(<<"c","o","u","n","t">>, <<Rel(<<Step("descendant-or-self", T_node), Step("parent", T_node)>>)>>)})
 ASSUME EmitPool("FX.two", Pool)
 
 \* a document nested Depth levels deep: <e>1<e>2<e>3 ... <e>k</e> ... c</e>b</e>a</e>   (text before and after every nested element)
